@@ -65,7 +65,8 @@ class Contract:
                            keep=set(v.get("keep", [])), unroll=v.get("unroll", False),
                            body_end=[Clause(c) for c in v.get("body_end", [])],
                            head=list(v.get("head", [])), abstract=v.get("abstract", False), cases=v.get("cases", False),
-                           at_exit=[Clause(c) for c in v.get("at_exit", [])])
+                           at_exit=[Clause(c) for c in v.get("at_exit", [])],
+                           independent=v.get("independent", False), carried_ok=set(v.get("carried_ok", [])))
     self.total = g("total", False)          # implicit exceptions are obligations (C18)
     self.total_props = set(g("total_props", ["C18"]))
     self.assumed = g("assumed", False)      # body not verified (out of reach): used by callers, listed as assumption
